@@ -209,7 +209,12 @@ def execute(case: dict) -> dict:
         elif e["a"] == "Touch":
             def touch():
                 cc = conv_of(cur)
-                return {"names": sorted(str(d.name) for d in cc.depth_coordinates), "n": len(list(cc.get_all_depth_names()))}
+                forvar = []
+                for sv in w["depthvars"]:
+                    r_ = outcome(lambda: str(cc.get_depth_coordinate_for_data_array(sv["name"]).name))
+                    forvar.append({"var": sv["name"], "coord": r_.get("ok", ""), "err": r_.get("err", "")})
+                return {"names": sorted(str(d.name) for d in cc.depth_coordinates), "n": len(list(cc.get_all_depth_names())),
+                        "forvar": forvar}
             e["obs"] = outcome(touch)
         elif e["a"] == "OceanFloor":
             def floor():
